@@ -440,14 +440,17 @@ def r11_8(ctx):
             guards.append(n)
     ctx.require(guards, "check_new_msgs_and_flags: guard of the `treat as a new mailbox` reset not found")
 
+    from .common import pm_of
+
     def _knows(e) -> bool:
-        t = norm(e, 300)
-        return any(k in t for k in (
+        # (the folder's key list is a local: matched modulo renaming)
+        pats = (
             "set(self.msg_keys).issubset(msg_keys)", "set(self.msg_keys) <= set(msg_keys)", "set(self.msg_keys) - set(msg_keys)",
             "set(msg_keys).issuperset(self.msg_keys)", "set(msg_keys) >= set(self.msg_keys)", "set(self.msg_keys).difference(msg_keys)",
-        )) or bool(re.search(r"all\(.* in .*msg_keys.* for .* in self\.msg_keys\)", t)) or bool(re.search(r"any\(.* not in .*msg_keys.* for .* in self\.msg_keys\)", t))
+            "all((k in msg_keys for k in self.msg_keys))", "any((k not in msg_keys for k in self.msg_keys))",
+        )
+        return any(pm_of(p, fi).find_all(x, scope=e) for x in pats)
 
-    import re
     hit = [g_ for g_ in guards if _knows(g_.test)]
     if hit:
         ctx.ok("R11.8", where(fi), "the recovery test asks whether every known message key is still in the folder (a kill between pack and commit is recognised)")
